@@ -41,10 +41,10 @@ func c11HpkeScenarios() []sched.Scenario {
 			c11Must(err)
 			return b
 		}
-		scs = append(scs, sched.Scenario{Name: "hpke/" + name + "/Public||Public", Setup: fresh,
+		scs = append(scs, sched.Scenario{Cost: 25, Name: "hpke/" + name + "/Public||Public", Setup: fresh,
 			Threads: []func(interface{}) interface{}{pub, pub}})
 		if id == hpke.KEM_X25519_HKDF_SHA256 {
-			scs = append(scs, sched.Scenario{Name: "hpke/" + name + "/Public||Public||Public", Setup: fresh,
+			scs = append(scs, sched.Scenario{Cost: 25, Name: "hpke/" + name + "/Public||Public||Public", Setup: fresh,
 				Threads: []func(interface{}) interface{}{pub, pub, pub}})
 		}
 		// Receiver.Setup || Decapsulate on one shared private key (both derive the public key internally)
@@ -68,7 +68,7 @@ func c11HpkeScenarios() []sched.Scenario {
 			}
 			return ss
 		}
-		scs = append(scs, sched.Scenario{Name: "hpke/" + name + "/Setup||Decapsulate", Setup: fresh,
+		scs = append(scs, sched.Scenario{Cost: 25, Name: "hpke/" + name + "/Setup||Decapsulate", Setup: fresh,
 			Threads: []func(interface{}) interface{}{setup, decap}})
 	}
 	return scs
